@@ -532,7 +532,8 @@ func ruleHeapSeed(r *rep.Report, p *load.Program, msm *ssa.Function) {
 		n++
 		got := int64(-1)
 		it := absint.NewInterp(absint.Hooks{Modular: func(*ssa.Function) bool { return true }, Summary: func(it *absint.Interp, f *ssa.Function, args []absint.AnyVal, call ssa.Instruction) (absint.AnyVal, bool) {
-			if ssau.InModule(f) && got < 0 && len(args) == 2 && f.Signature.Params().Len() == 2 && f.Signature.Params().At(1).Type().String() == "int" {
+			// the first module call handed (heap, count): heapBuild as a function or as a method on the heap
+			if ssau.InModule(f) && got < 0 && len(args) == 2 && len(f.Params) == 2 && f.Params[1].Type().String() == "int" {
 				if v, ok := args[1].(absint.Val); ok && v.IsConst() {
 					got = v.Int64()
 				} else {
